@@ -6,6 +6,7 @@ import Proofs.C01StmtSim
 import Proofs.C01Witness
 import Proofs.C01FramesCor
 import Proofs.C01Norm
+import Proofs.C01Ends
 /-!
 # C01 — compiled execution preserves the meaning of the parsed program
 
@@ -320,5 +321,47 @@ example : eval semFld (fieldN 48) [] = some ((148 : Nat), ([] : List Nat)) ∧ s
 example : eval semFld (.and (fieldN 48) (fieldN 49)) [] = some ((1 : Nat), ([] : List Nat)) := by rfl
 example : eval (semC false) (.or (.num ⟨true, 0⟩) (.num ⟨true, 7⟩)) {} = some (CV.num 1, {}) := by
   simp [eval, semC, Conc.toBool]
+
+/-! ## File output, however the run ends (model `GoawkModel.C01Ends`: buffered streams, `closeAll` when execution ends) -/
+
+/-- FILE OUTPUT, for every program (sequence of output actions ending at the first run-time error or `exit`), every buffering
+policy (how much of a stream's buffer reaches the file after a write — any function; bufio's 64 KiB rule is one), every initial
+content of the files and EVERY KIND OF ENDING: after `executeAll` (run, then the deferred `closeAll`) each file holds exactly
+what direct evaluation, in which a destination is a log, leaves in it; no byte stays in a buffer; and the run ends the same way
+(normally / by exit / with an error). -/
+theorem files_after_run_are_the_log (pol : Ends.Policy) (acts : List Ends.Act) (files : Nat → Bytes) :
+    (∀ m, ((Ends.executeAll pol acts (Ends.initImpl files)).1 m).file = ((Ends.specRun acts (Ends.initSpec files)).1 m).file ∧
+          ((Ends.executeAll pol acts (Ends.initImpl files)).1 m).buf = []) ∧
+    (Ends.executeAll pol acts (Ends.initImpl files)).2 = (Ends.specRun acts (Ends.initSpec files)).2 := by
+  have h := Ends.rel_run pol acts _ _ (Ends.rel_init files)
+  exact ⟨fun m => Ends.close_file (h.1 m), h.2⟩
+
+/-- corollary: what is in the files does not depend on the size or policy of the buffers -/
+theorem files_do_not_depend_on_buffering (pol₁ pol₂ : Ends.Policy) (acts : List Ends.Act) (files : Nat → Bytes) (m : Nat) :
+    ((Ends.executeAll pol₁ acts (Ends.initImpl files)).1 m).file = ((Ends.executeAll pol₂ acts (Ends.initImpl files)).1 m).file := by
+  rw [((files_after_run_are_the_log pol₁ acts files).1 m).1, ((files_after_run_are_the_log pol₂ acts files).1 m).1]
+
+/-- the seeded change C01-p3 (`closeAll` on the success path only) on a concrete program: `print "x" > f` followed by a
+run-time error leaves the file empty (the byte is still in the stream's buffer), direct evaluation leaves "x" in it -/
+theorem close_on_success_path_only_loses_output :
+    ((Ends.executeAllP3 (fun _ => 0) [.print 0 true [120], .fail] (Ends.initImpl fun _ => [])).1 0).file = [] ∧
+    ((Ends.executeAllP3 (fun _ => 0) [.print 0 true [120], .fail] (Ends.initImpl fun _ => [])).1 0).buf = [120] ∧
+    ((Ends.specRun [.print 0 true [120], .fail] (Ends.initSpec fun _ => [])).1 0).file = [120] ∧
+    (Ends.specRun [.print 0 true [120], .fail] (Ends.initSpec fun _ => [])).2 = .error := by
+  refine ⟨?_, ?_, ?_, ?_⟩ <;> rfl
+
+/-- ... and why no test of normal or `exit` endings notices that change: without a run-time error it is `executeAll` -/
+theorem close_on_success_path_only_agrees_without_error (pol : Ends.Policy) (acts : List Ends.Act) (σ : Nat → Ends.St)
+    (h : (Ends.implRun pol acts σ).2 ≠ .error) : Ends.executeAllP3 pol acts σ = Ends.executeAll pol acts σ := by
+  simp [Ends.executeAllP3, Ends.executeAll, h]
+
+-- non-vacuity: a run that ends with an error after buffered output to two destinations, one of them closed and re-opened
+example : ((Ends.executeAll (fun n => if n > 2 then n else 0)
+      [.print 0 true [1, 2], .print 1 false [7], .close 0, .print 0 true [3], .print 0 false [4, 5, 6], .fail, .print 0 true [9]]
+      (Ends.initImpl fun m => if m = 1 then [100] else [50])).1 0).file = [3, 4, 5, 6] := by rfl
+example : ((Ends.executeAll (fun _ => 0) [.print 1 false [7], .fail] (Ends.initImpl fun m => if m = 1 then [100] else [50])).1 1).file = [100, 7] ∧
+    (Ends.executeAll (fun _ => 0) [.print 1 false [7], .fail] (Ends.initImpl fun _ => [])).2 = .error ∧
+    (Ends.implRun (fun _ => 0) [.print 0 true [1], .exit] (Ends.initImpl fun _ => [])).2 ≠ .error := by
+  refine ⟨?_, ?_, ?_⟩ <;> decide
 
 end GoawkModel.C01.Props
